@@ -577,6 +577,13 @@ Fixpoint clean (auto : bool) (s : st) (ops : list op) : bool :=
   | o :: r => negb (trigger auto s o) && clean auto (fst (step auto s o)) r
   end.
 
+(* a multi-column set that raises changes nothing -- outside the trigger class of the finding
+   inherit_set_not_atomic: either the validation of an own column fails (it runs before anything
+   is written), or at most one column is set *)
+Definition set_guard (k : cls) (kvs : list (cls * inval)) : bool :=
+  match validate_all (filter (fun kv => cls_eqb (fst kv) k) kvs) with Some _ => true | None => false end
+  || Nat.leb (length kvs) 1.
+
 (* the value a create stores for the column of class l *)
 Definition argval (a : cargs) (l : cls) : option Z :=
   match validate (arg_of a l) with inr v => v | inl _ => None end.
